@@ -63,6 +63,8 @@ func buildStream(name string, cfg *config) (Stream, map[string]string, error) {
 	case name == "builtins":
 		s, sk := buildBuiltins(newEnv(), cfg.tier)
 		return s, sk, nil
+	case name == "programs":
+		return buildPrograms(cfg.tier), nil, nil
 	case name == "infix":
 		return buildInfix(cfg.tier), nil, nil
 	case name == "mutants":
@@ -170,6 +172,31 @@ func fatalTop(stderr string) string {
 	return strings.Join(out, " | ")
 }
 
+// Bounded time on a tree with MANY hanging inputs: after 2 timeouts with the same signature in a stream
+// the remaining children of that stream run with a 1.2 s per-input limit, and after 12 timeouts the
+// rest of the stream is not run at all (reported in the statistics as aborted).
+var hangMu sync.Mutex
+var hangSig = map[string]int{}
+var hangCount = map[string]int{}
+var hangFast = map[string]bool{}
+var hangAborted = map[string]int{} // stream -> inputs not run
+
+func noteHang(stream, entry string) {
+	hangMu.Lock()
+	defer hangMu.Unlock()
+	hangSig[stream+"|"+entry]++
+	hangCount[stream]++
+	if hangSig[stream+"|"+entry] >= 2 {
+		hangFast[stream] = true
+	}
+}
+
+func hangState(stream string) (fast bool, aborted bool) {
+	hangMu.Lock()
+	defer hangMu.Unlock()
+	return hangFast[stream], hangCount[stream] >= 12
+}
+
 // runJob runs one child over [from,to); on a hard crash it records the culprit and continues
 // with the remaining indices in new children.
 func runJob(cfg *config, j job) jobResult {
@@ -180,6 +207,17 @@ func runJob(cfg *config, j job) jobResult {
 		pending = pending[1:]
 		if cur.from >= cur.to {
 			continue
+		}
+		if fast, aborted := hangState(cur.stream); cur.only < 0 && !strings.HasPrefix(cur.stream, "file:") && cur.stream != "specials" {
+			if aborted {
+				hangMu.Lock()
+				hangAborted[cur.stream] += cur.to - cur.from
+				hangMu.Unlock()
+				continue
+			}
+			if fast && cur.timeout > 1200*time.Millisecond {
+				cur.timeout = 1200 * time.Millisecond
+			}
 		}
 		seq := nextSeq()
 		prog := filepath.Join(cfg.tmp, fmt.Sprintf("p%d", seq))
@@ -299,6 +337,9 @@ func runJob(cfg *config, j job) jobResult {
 				en = entryNames[entry]
 			}
 			res.culprits = append(res.culprits, culprit{Stream: cur.stream, Idx: idx, Entry: en, Class: class, Rc: rc, Stderr: fatalTop(stderr.String())})
+			if class == ObsTimeout && cur.only < 0 {
+				noteHang(cur.stream, en)
+			}
 			// anomalies already reported for indices of this range stay; re-run the part before the
 			// culprit (its statistics were lost) and the part after it
 			// statistics up to the last checkpoint were kept; continue after the culprit
@@ -702,8 +743,8 @@ func parentMain(a lib.Args, cfg *config) {
 	out := lib.NewOut(a.Out)
 	out.Rule = "nontrivial = an input whose evaluation reached the generator (model-tie cases); evaluations counts every (input, entry point) run"
 
-	order := []string{"builtins", "forms", "specials", "infix", "mutants", "tokext", "tokcore"}
-	chunk := map[string]int{"specials": 1, "forms": 1500, "builtins": 800, "infix": 400, "mutants": 100, "tokext": 8000, "tokcore": 8000}
+	order := []string{"builtins", "forms", "specials", "programs", "infix", "mutants", "tokext", "tokcore"}
+	chunk := map[string]int{"specials": 1, "forms": 1500, "builtins": 800, "programs": 150, "infix": 400, "mutants": 100, "tokext": 8000, "tokcore": 8000}
 	inputTimeout := 10 * time.Second
 	if cfg.tier == "thorough" {
 		inputTimeout = 20 * time.Second
@@ -972,7 +1013,7 @@ func parentMain(a lib.Args, cfg *config) {
 			sem <- true
 			go func() {
 				defer wg.Done()
-				z := runZygo(cfg, text, 20*time.Second)
+				z := runZygo(cfg, text, 8*time.Second)
 				mu.Lock()
 				for k, v := range z {
 					cls := strings.SplitN(v, " ", 2)[0]
@@ -998,6 +1039,7 @@ func parentMain(a lib.Args, cfg *config) {
 	out.Extra["hard_culprits_total"] = len(culprits)
 	out.Extra["cmd_zygo_sample"] = zygoSample
 	out.Extra["parallel_children"] = parallelism()
+	out.Extra["streams_aborted_after_repeated_hangs"] = hangAborted
 	out.Extra["scan_wall_s"] = tScan.Seconds()
 	out.Extra["wall_s"] = time.Since(t0).Seconds()
 	out.Extra["alphabets"] = map[string]int{"core": len(coreAlphabet), "extended": len(extAlphabet)}
